@@ -19,6 +19,18 @@ EXPLANATION = (
     're-acquisition, a non-async guard live across a Yield, a guard live across a blocking hand-off, a guard that '
     'escapes tracking, an acquisition whose class cannot be derived (fail closed).')
 
+MANIFEST = {
+    'text': 'Whole-program static lock-order analysis over the promoted MIR of the library and all binaries: a '
+            'sufficient condition for deadlock freedom through the engine\'s own locks (acyclic lock-order graph over '
+            'all lock classes, no same-class re-acquisition, no sync guard across await or blocking hand-off). It '
+            'quantifies over every pair of code paths that could run concurrently, which no schedule sample does.',
+    'design_ref': 'DESIGN.md §3 (LOCK), §4.8',
+    'note': 'Trusted base: rustc MIR + callee resolution; the may-call graph construction (trait fan-out to all '
+            'impls; closures handed to spawn-like functions are not nested); guard-liveness rules. Distinct instances '
+            'of one class are merged; internal locks of dependencies are out of scope.',
+    'technique': 'static lock-order graph + guard-liveness dataflow on MIR',
+}
+
 # floors: measured on the pinned tree on the first run, confirmed against the hand count of DESIGN §4.8
 FLOOR_ACQ = 290       # 299 acquisition call sites in lib + 3 bins
 FLOOR_CLASSES = 45    # 48 classes
